@@ -16,12 +16,12 @@ def main(tier, seed):
     from fractions import Fraction as F
     from .. import progspace
     quick = tier == "quick"
-    items = standard_items(seed, tier, 20 if quick else 160, 160, bench_quick=10)
+    items = standard_items(seed, tier, 20 if quick else 80, 80, bench_quick=10)
     # spec -> code: programs enumerated by TLC (spec/ProgSpace.tla) with their exact moment sequences
-    ps_items, ps_cov = progspace.items(2 if quick else 3, 4, sample=20 if quick else None, rng=random.Random(seed))
+    ps_items, ps_cov = progspace.items(2 if quick else 3, 4, sample=20 if quick else 600, rng=random.Random(seed))
     items += ps_items
     # Normal / Uniform / Laplace draws with state-dependent location (decided through moment-matched finite laws)
-    items += C.generated(seed + 11, 6 if quick else 60, profile={"cont": True, "params": False, "sym_init": False}, ngoals=4, prefix="genk")
+    items += C.generated(seed + 11, 6 if quick else 30, profile={"cont": True, "params": False, "sym_init": False}, ngoals=4, prefix="genk")
 
     def post(ctx):
         run = ctx["run"]
@@ -45,7 +45,7 @@ def main(tier, seed):
         from .. import abstraction
         abs_cov = abstraction.part(run, tier, seed, "mom")
         return dict(ps_cov, progspace_values_compared=compared, progspace_mismatches=mismatches, **abs_cov)
-    return analysis_check("C01", tier, seed, items=items, N=6 if quick else 8,
+    return analysis_check("C01", tier, seed, items=items, N=6 if quick else 7,
                           timeout=100 if quick else 300, post=post, N_ext=25, **CONFIG)
 
 
